@@ -1071,7 +1071,7 @@ class Engine:
             m_ = z3.BitVec("floor%d" % next(_ids), 64)
             self.assume(z3.And(z3.ULE(m_, n), self.boundary(args[0], m_), z3.ULE(m_, self.len_of(args[0]))))
             return Scalar(m_)
-        mi = re.match(r"<(?:std::string::)?(String|str) as Index(?:Mut)?<(?:std::ops::)?(RangeTo|Range|RangeFrom|RangeInclusive|RangeToInclusive)<usize>>>::index(?:_mut)?$", c)
+        mi = re.match(r"<(?:std::string::)?(String|str) as (?:std::ops::)?Index(?:Mut)?<(?:std::ops::)?(RangeTo|Range|RangeFrom|RangeInclusive|RangeToInclusive)<usize>>>::index(?:_mut)?$", c)
         if mi and len(args) == 2:
             s_, rg = args[0], self.peel(args[1])
             ln = self.len_of(s_)
